@@ -212,6 +212,14 @@ func observe(req c06wl.RecoverReq) (resp c06wl.RecoverResp) {
 		sort.Strings(o.Listed)
 		resp.Blobs[k] = o
 	}
+	// the recovered directory must survive another clean restart unchanged
+	if st2, err := disk.NewStore(diskConfig(req.Config, req.Dir), tally.NoopScope); err != nil {
+		resp.SecondOpenErr = err.Error()
+	} else {
+		resp.SecondListAny = sorted(st2.List())
+		resp.SecondListComplete = sorted(st2.ScopeComplete().List())
+		st = st2
+	}
 	// every key can be created and completed again: first make room (delete what
 	// the recovered store lists), then Create -> Write -> MarkComplete -> Open.
 	failed := map[string]bool{}
